@@ -62,6 +62,23 @@ class Scripted:
         return self._trace[t]
 
 
+def soc_parts(clk=2e6, baud=250000, depth=4, wd_width=12, wd_delay=5):
+    """A real SoCMini with the cores added the way users add them: `with_timer` (add_timer), `with_uart` (add_uart:
+    UARTPHY + UART with the SoC's clock, baud rate and FIFO depth) and `add_watchdog`.  Returns (soc, uart pads,
+    watchdog reset signal); the cores are then simulated on their own."""
+    from litex.soc.integration.soc_core import SoCMini
+    from litex.build.sim.platform import SimPlatform
+    from litex.build.generic_platform import Pins, Subsignal
+    import envshim
+    plat = SimPlatform("SIM", [("sys_clk", 0, Pins(1)), ("sys_rst", 0, Pins(1)),
+                               ("serial", 0, Subsignal("tx", Pins(1)), Subsignal("rx", Pins(1)))])
+    soc = SoCMini(plat, clk, with_timer=True, with_uart=True, uart_name="serial", uart_baudrate=baud, uart_fifo_depth=depth)
+    rst = Signal()
+    soc.add_watchdog(width=wd_width, crg_rst=rst, reset_delay=wd_delay)
+    envshim.quiet_stderr()
+    return soc, plat.lookup_request("serial"), rst
+
+
 def prod(*axes):
     return [tuple(l) for l in itertools.product(*axes)]
 
@@ -110,9 +127,9 @@ class TimerMonitor:
         return msg
 
 
-def mk_timer(width, values=None):
+def mk_timer(width, values=None, core=None, name=None):
     from litex.soc.cores.timer import Timer
-    core = Timer(width=width)
+    core = core if core is not None else Timer(width=width)
     top = (1 << width) - 1
     vals = list(values) if values is not None else (list(range(1 << width)) if width <= 4 else [0, 1, 2, top])
     small = [0, 1, 2, 3, 5, 8, 13]
@@ -123,7 +140,7 @@ def mk_timer(width, values=None):
         pick = lambda: (rng.choice(small) if rng.random() < 0.8 else rng.choice([top, top - 1, rng.getrandbits(width)])) & top
         return (pick(), pick() if rng.random() < 0.6 else 0, 1 if rng.random() < pen else 0, 1 if rng.random() < 0.2 else 0)
 
-    return PInst("Timer(width=%d)" % width, core, "timer %d" % width,
+    return PInst(name or "Timer(width=%d)" % width, core, "timer %d" % width,
                  [core._load.storage, core._reload.storage, core._en.storage, core._update_value.re],
                  [core.ev.zero.trigger, core._value.status],
                  prod(vals, vals, (0, 1), (0, 1)), gen,
@@ -139,8 +156,9 @@ class WatchdogMonitor:
     while enabled) is raised the cycle after an enabled cycle that saw remaining == 0; with reset mode the reset
     output rises after `reset_delay` further cycles of continuous timeout, never earlier."""
 
-    def __init__(self, delay):
-        self.delay = delay
+    def __init__(self, delay, halt_direct=False):
+        self.delay = delay           # None: built without crg_rst (no reset output to judge)
+        self.halt_direct = halt_direct
         self.rem = 0
         self.exe = 0
         self.streak = 0          # consecutive cycles of (enabled & execute & reset mode)
@@ -148,6 +166,8 @@ class WatchdogMonitor:
     def observe(self, letter, outs):
         feed, enf, rstf, pausef, halted, cycles = letter
         trig, crg_rst, remaining, execute = outs
+        if self.halt_direct:
+            pausef = 1
         en = 1 if (enf and not (halted and pausef)) else 0
         msg = None
         if remaining != self.rem:
@@ -156,9 +176,11 @@ class WatchdogMonitor:
             msg = "execute=%d, reference %d" % (execute, self.exe)
         elif trig != (en & self.exe):
             msg = "wdt event trigger=%d with enable=%d execute=%d" % (trig, en, self.exe)
-        elif crg_rst != (1 if (en and self.exe and rstf and self.streak >= self.delay) else 0):
+        elif self.delay is not None and crg_rst != (1 if (en and self.exe and rstf and self.streak >= self.delay) else 0):
             msg = "crg_rst=%d after %d cycles of timeout in reset mode (reset_delay=%d)" % (crg_rst, self.streak, self.delay)
         self.streak = self.streak + 1 if (en and self.exe and rstf) else 0
+        if self.delay is None and crg_rst:
+            msg = msg or "reset output driven although no crg_rst was given"
         if feed:
             self.rem = cycles
         elif en:
@@ -168,10 +190,14 @@ class WatchdogMonitor:
         return msg
 
 
-def mk_watchdog(width, delay, values=None):
+def mk_watchdog(width, delay, values=None, with_halted=True, with_crg=True, core=None, crg=None, name=None):
+    """`with_halted=False` / `with_crg=False` take the constructor's `halted=None` / `crg_rst=None` paths: the core's own
+    `halted` signal is then a free input (no pause_halted gating), and there is no reset timer."""
     from litex.soc.cores.watchdog import Watchdog
-    halted, crg_rst = Signal(), Signal()
-    core = Watchdog(width=width, crg_rst=crg_rst, reset_delay=delay, halted=halted)
+    halted, crg_rst = Signal(), (crg if crg is not None else Signal())
+    if core is None:
+        core = Watchdog(width=width, crg_rst=crg_rst if with_crg else None, reset_delay=delay,
+                        halted=halted if with_halted else None)
     f = core._control.fields
     top = (1 << width) - 1
     vals = list(values) if values is not None else (list(range(1 << width)) if width <= 4 else [0, 1, 2, top])
@@ -184,12 +210,19 @@ def mk_watchdog(width, delay, values=None):
         return (1 if rng.random() < pfeed else 0, 1 if rng.random() < pen else 0, 1 if rng.random() < 0.7 else 0,
                 1 if rng.random() < 0.5 else 0, 1 if rng.random() < 0.15 else 0, cyc & top)
 
-    return PInst("Watchdog(width=%d,reset_delay=%d)" % (width, delay), core, "watchdog %d %d" % (width, delay),
-                 [f.feed, f.enable, f.reset, f.pause_halted, halted, core._cycles.storage],
+    inst = PInst(name or "Watchdog(width=%d,reset_delay=%d%s%s)" % (width, delay, "" if with_halted else ",halted=None",
+                                                                   "" if with_crg else ",crg_rst=None"),
+                 core, "watchdog %d %d" % (width, delay),
+                 [f.feed, f.enable, f.reset, f.pause_halted, halted if with_halted else core.halted, core._cycles.storage],
                  [core.ev.wdt.trigger, crg_rst, core._remaining.status, core.execute],
                  prod((0, 1), (0, 1), (0, 1), (0, 1), (0, 1), vals), gen,
-                 lambda l, o: l[0] or l[1] or o[0], monitor=lambda: WatchdogMonitor(delay),
+                 lambda l, o: l[0] or l[1] or o[0],
+                 monitor=lambda: WatchdogMonitor(delay if with_crg else None, halt_direct=not with_halted),
+                 qual=[None, None if with_crg else (lambda a: False), None, None],
                  idle=lambda l: (0,) + tuple(l[1:]))
+    if not with_halted:
+        inst.model_letter = lambda l: (l[0], l[1], l[2], 1, l[4], l[5])     # the free `halted` acts ungated
+    return inst
 
 
 # ---------------------------------------------------------------------------------------------------------
@@ -211,7 +244,8 @@ class WaitTimerMonitor:
 
 def mk_waittimer(t):
     from litex.gen.genlib.misc import WaitTimer
-    core = WaitTimer(t)
+    core = WaitTimer(t)          # `t` may be a float (e.g. 100e-3 * clk_freq): the constructor takes int(t)
+    t = int(t)
     state = {"p": 0.5}
 
     def gen(rng, t_):
@@ -301,9 +335,9 @@ class PwmMonitor:
         return msg
 
 
-def mk_pwm(values=None, wide=False):
+def mk_pwm(values=None, wide=False, csr=False):
     from litex.soc.cores.pwm import PWM
-    core = PWM(with_csr=False)
+    core = PWM(with_csr=csr)
     vals = list(values) if values is not None else [0, 1, 2, 3]
     state = {"w": 1, "p": 4}
 
@@ -314,9 +348,95 @@ def mk_pwm(values=None, wide=False):
         return (1 if rng.random() < 0.97 else 0, 1 if rng.random() < 0.02 else 0, state["w"],
                 state["p"] if rng.random() < 0.99 else rng.choice([0, 1, 2]))
 
-    return PInst("PWM%s" % ("/32b" if wide else ""), core, "pwm", [core.enable, core.reset, core.width, core.period],
+    ins = [core._enable.storage, core.reset, core._width.storage, core._period.storage] if csr else \
+        [core.enable, core.reset, core.width, core.period]
+    return PInst("PWM%s%s" % ("/32b" if wide else "", ",with_csr" if csr else ""), core, "pwm", ins,
                  [core.pwm], prod((0, 1), (0, 1), vals, vals), gen, lambda l, o: l[0] and not l[1],
                  monitor=PwmMonitor)
+
+
+class McPwmMonitor:
+    """Every channel: output (one register later) = enable_k and shared position < width_k, where the position runs
+    0 .. period-1 while channel 0 is enabled with a constant period >= 1 (phase tracked from a disabled cycle)."""
+    def __init__(self, n):
+        self.n, self.pos, self.expect, self.p = n, 0, None, None
+
+    def observe(self, letter, outs):
+        period, chans = letter[0], [(letter[1 + 2 * k], letter[2 + 2 * k]) for k in range(self.n)]
+        msg = None
+        if self.expect is not None and list(outs) != self.expect:
+            msg = "pwm outputs %r, expected %r" % (list(outs), self.expect)
+        if self.pos is None or (self.p is not None and period != self.p and self.pos >= max(period, 1)):
+            self.expect, self.pos = None, None
+        if self.pos is not None:
+            self.expect = [1 if (e and self.pos < w) else 0 for e, w in chans]
+        if not chans[0][0]:
+            self.pos = 0
+        elif self.pos is not None and period >= 1:
+            self.pos = self.pos + 1 if self.pos + 1 < period else 0
+        else:
+            self.pos = None
+        self.p = period
+        return msg
+
+
+class _PadVec:
+    def __init__(self, sigs):
+        self.sigs = sigs
+
+    def __len__(self):
+        return len(self.sigs)
+
+    def __getitem__(self, k):
+        return self.sigs[k]
+
+
+def mk_mcpwm(n, values=(0, 1, 2, 3)):
+    """MultiChannelPWM: letter = (period, enable_0, width_0, ..., enable_{n-1}, width_{n-1}) written to the CSR storages."""
+    from litex.soc.cores.pwm import MultiChannelPWM
+    pads = _PadVec([Signal() for _ in range(n)])
+    core = MultiChannelPWM(pads)
+    ch = [getattr(core, "channel%d" % k) for k in range(n)]
+    ins = [ch[0]._period.storage]
+    for c in ch:
+        ins += [c._enable.storage, c._width.storage]
+    state = {}
+
+    def gen(rng, t):
+        if t % 61 == 0:
+            state["p"] = rng.choice([1, 2, 3, 5, 9, 17])
+            state["w"] = [rng.randint(0, state["p"] + 1) for _ in range(n)]
+        l = [state["p"] if rng.random() < 0.995 else rng.choice([0, 1, 4])]
+        for k in range(n):
+            l += [1 if rng.random() < (0.98 if k == 0 else 0.9) else 0, state["w"][k]]
+        return tuple(l)
+
+    vals = list(values)
+    alpha = [(p, e0, w0) + tuple(x for k in range(1, n) for x in (e0 if k % 2 else 1 - e0, vals[(w0 + k) % len(vals)]))
+             for p in vals for e0 in (0, 1) for w0 in vals]
+    return PInst("MultiChannelPWM(%d)" % n, core, "mcpwm %d" % n, ins, list(pads.sigs), alpha, gen,
+                 lambda l, o: l[1], monitor=lambda: McPwmMonitor(n))
+
+
+class UptimeMonitor:
+    """uptime_cycles.status = number of clock cycles before the last latch request."""
+    def __init__(self):
+        self.t, self.latched = 0, 0
+
+    def observe(self, letter, outs):
+        msg = None if outs[0] == self.latched else "uptime_cycles=%d, expected %d" % (outs[0], self.latched)
+        if letter[0]:
+            self.latched = self.t
+        self.t += 1
+        return msg
+
+
+def mk_uptime():
+    from litex.soc.cores.timer import Timer
+    core = Timer(width=8)
+    core.add_uptime()
+    return PInst("Timer.add_uptime()", core, "uptime", [core._uptime_latch.re], [core._uptime_cycles.status], [(0,), (1,)],
+                 lambda rng, t: (1 if rng.random() < 0.05 else 0,), lambda l, o: l[0], monitor=UptimeMonitor)
 
 
 # ---------------------------------------------------------------------------------------------------------
@@ -398,10 +518,58 @@ class UartTxMonitor:
         return msg
 
 
-def mk_uart_tx(tw, bytes_=(0x00, 0xff, 0xa5, 0x3c), name=None):
-    from litex.soc.cores.uart import RS232PHYTX, UARTPads
+class UartBaudMonitor:
+    """TX frame checker against the *requested* baud rate (clk_freq, baudrate as given to UARTPHY), exact rationals:
+    in cycle r of a frame the pad carries bit floor(r*baud/clk) of start/d0..d7/stop, one cycle of slack around every bit
+    boundary; sink.ready pulses once, within one cycle of 10 bit periods; the line idles high."""
+
+    def __init__(self, clk, baud):
+        self.clk, self.baud = int(clk), int(baud)
+        self.r = None
+
+    def observe(self, letter, outs):
+        valid, data = letter
+        tx, ready = outs
+        if self.r is None:
+            if tx != 1:
+                return "line low while idle"
+            if ready:
+                return "sink.ready while idle"
+            if valid:
+                self.r, self.byte = 0, data & 0xff
+            return None
+        fr = ideal_frame(self.byte) + [1, 1]
+        lo, hi = max(self.r - 1, 0) * self.baud // self.clk, (self.r + 1) * self.baud // self.clk
+        msg = None
+        if lo > 10:
+            return "frame did not end after 10 bit periods at %d baud" % self.baud
+        if tx not in (fr[min(lo, 11)], fr[min(hi, 11)]):
+            msg = "cycle %d of the frame: line=%d, expected bit %d of the frame at %d baud" % (self.r, tx, lo, self.baud)
+        if ready:
+            if not (lo <= 10 <= hi + 1) and not (lo == 9 and hi >= 9 and (self.r + 2) * self.baud // self.clk >= 10):
+                msg = msg or "sink.ready in cycle %d, 10 bit periods are %d cycles" % (self.r, 10 * self.clk // self.baud)
+            self.r = None
+        else:
+            self.r += 1
+        return msg
+
+
+def phy_tuning_word(clk_freq, baudrate):
+    """The tuning word RS232PHY is documented to program: baudrate / clk_freq as a 32-bit fraction."""
+    return int((baudrate / clk_freq) * 2 ** 32)
+
+
+def mk_uart_tx(tw, bytes_=(0x00, 0xff, 0xa5, 0x3c), name=None, phy=None, dynamic=False):
+    """`phy=(clk_freq, baudrate)`: the transmitter is built through the UARTPHY factory / RS232PHY (tuning word computed
+    by that glue, optionally held in the `with_dynamic_baudrate` CSR storage left at its reset value)."""
+    from litex.soc.cores.uart import RS232PHYTX, UARTPads, UARTPHY
     pads = UARTPads()
-    core = RS232PHYTX(pads, tw)
+    if phy:
+        core = UARTPHY(pads, phy[0], phy[1], with_dynamic_baudrate=dynamic)
+        tw = phy_tuning_word(*phy)
+        name = name or "UARTPHY(%g Hz,%d baud%s).tx" % (phy[0], phy[1], ",dynamic" if dynamic else "")
+    else:
+        core = RS232PHYTX(pads, tw)
     period = M32 // tw
     state = {"p": 0.5}
 
@@ -412,7 +580,170 @@ def mk_uart_tx(tw, bytes_=(0x00, 0xff, 0xa5, 0x3c), name=None):
 
     return PInst(name or "RS232PHYTX(tw=0x%x)" % tw, core, "uarttx %d" % tw, [core.sink.valid, core.sink.data],
                  [pads.tx, core.sink.ready], prod((0, 1), bytes_), gen, lambda l, o: o[1] or (l[0] and o[0]),
-                 monitor=lambda: UartTxMonitor(tw), idle=lambda l: (0, 0))
+                 monitor=(lambda: UartBaudMonitor(*phy)) if phy else (lambda: UartTxMonitor(tw)), idle=lambda l: (0, 0))
+
+
+class UartTopMonitor:
+    """Scoreboards of the UART's CSR side (independent of the model):
+      - a character written to rxtx while txfull = 0 is handed to the PHY exactly once, in order; nothing else is;
+      - a character accepted from the PHY (sink.valid & sink.ready) is shown on rxtx.w, in order, until software pops it
+        (ev.rx.clear, or a read of rxtx with rx_fifo_rx_we); rxempty = 0 promises a character;
+      - txfull = ~sink side ready and the triggers mirror the flags; queued characters surface within 3 cycles."""
+
+    def __init__(self, dtx, drx, rx_we):
+        self.dtx, self.drx, self.rx_we = dtx, drx, rx_we
+        self.txq, self.rxq = [], []
+        self.tx_wait = self.rx_wait = 0
+
+    def observe(self, letter, outs):
+        re, r, we, clr, sv, sd, rdy = letter
+        srcv, srcd, srdy, w, txfull, txempty, rxempty, rxfull, ttx, trx = outs
+        msg = None
+        if ttx != 1 - txfull or trx != 1 - rxempty:
+            msg = "event triggers (tx=%d, rx=%d) do not mirror txfull=%d / rxempty=%d" % (ttx, trx, txfull, rxempty)
+        elif txempty != 1 - srcv:
+            msg = "txempty=%d while source.valid=%d" % (txempty, srcv)
+        elif rxfull != 1 - srdy:
+            msg = "rxfull=%d while sink.ready=%d" % (rxfull, srdy)
+        elif srcv and (not self.txq or self.txq[0] != srcd):
+            msg = "PHY offered 0x%02x, software wrote %s" % (srcd, "0x%02x" % self.txq[0] if self.txq else "nothing")
+        elif not rxempty and (not self.rxq or self.rxq[0] != w):
+            msg = "rxtx shows 0x%02x, PHY delivered %s" % (w, "0x%02x" % self.rxq[0] if self.rxq else "nothing")
+        elif len(self.txq) > self.dtx + 1 or len(self.rxq) > self.drx + 1:
+            msg = "more characters in flight than the FIFO holds"
+        self.tx_wait = self.tx_wait + 1 if (self.txq and not srcv) else 0
+        self.rx_wait = self.rx_wait + 1 if (self.rxq and rxempty) else 0
+        if msg is None and (self.tx_wait > 3 or self.rx_wait > 3):
+            msg = "a queued character did not surface within 3 cycles"
+        if srcv and rdy and self.txq:
+            self.txq.pop(0)
+        if not rxempty and (clr or (self.rx_we and we)) and self.rxq:
+            self.rxq.pop(0)
+        if re and not txfull:
+            self.txq.append(r & 0xff)
+        if sv and srdy:
+            self.rxq.append(sd & 0xff)
+        return msg
+
+
+class UartTopInst(PInst):
+    """UART(phy=None, tx_fifo_depth, rx_fifo_depth, rx_fifo_rx_we).
+       letter  = (rxtx.re, rxtx.r, rxtx.we, clear rx event, sink.valid, sink.data, source.ready)
+       outputs = (source.valid, source.data, sink.ready, rxtx.w, txfull, txempty, rxempty, rxfull, ev.tx.trigger,
+                  ev.rx.trigger)"""
+
+    def __init__(self, dtx, drx, rx_we=False, alphabet=None):
+        from litex.soc.cores.uart import UART
+        core = UART(phy=None, tx_fifo_depth=dtx, rx_fifo_depth=drx, rx_fifo_rx_we=rx_we)
+        self.core, self.d = core, (dtx, drx, rx_we)
+        PInst.__init__(self, "UART(tx_fifo_depth=%d,rx_fifo_depth=%d%s)" % (dtx, drx, ",rx_fifo_rx_we" if rx_we else ""), core,
+                       "uarttop %d %d %d" % (dtx, drx, 1 if rx_we else 0), None,
+                       [core.source.valid, core.source.data, core.sink.ready, core._rxtx.w, core._txfull.status,
+                        core._txempty.status, core._rxempty.status, core._rxfull.status, core.ev.tx.trigger,
+                        core.ev.rx.trigger], alphabet, None, lambda l, o: l[0] or l[4] or o[0] or not o[6],
+                       qual=[None, 0, None, (lambda a: a[6] == 0), None, None, None, None, None, None])
+        self.monitor = lambda: UartTopMonitor(dtx, drx, rx_we)
+
+    def apply(self, letter):
+        n, c = self.netlist, self.core
+        re, r, we, clr, sv, sd, rdy = letter
+        n.set(c._rxtx.re, re); n.set(c._rxtx.r, r); n.set(c._rxtx.we, we)
+        n.set(c.ev.pending.re, clr); n.set(c.ev.pending.r, 3)
+        n.set(c.sink.valid, sv); n.set(c.sink.data, sd); n.set(c.source.ready, rdy)
+        n.settle()
+
+    def sample(self):
+        return [self.netlist.getu(sig) for sig in self.outputs]
+
+    def gen(self, rng, t):
+        regime = (t // 97) % 4
+        pw, pr, pv, pc = ((0.5, 0.2, 0.5, 0.2), (0.1, 0.8, 0.1, 0.8), (0.9, 0.05, 0.9, 0.05), (0.3, 0.5, 0.3, 0.5))[regime]
+        return (1 if rng.random() < pw else 0, rng.getrandbits(8), 1 if rng.random() < 0.3 else 0,
+                1 if rng.random() < pc else 0, 1 if rng.random() < pv else 0, rng.getrandbits(8),
+                1 if rng.random() < pr else 0)
+
+
+class UartSysMonitor:
+    """UART with its RS232 PHY, pads.tx looped back to pads.rx (by the stimulus; checked here): every character software
+    writes while txfull = 0 comes back on rxtx.w, in order, each within (position + 2) * 11 bit periods; nothing else
+    does.  Disarmed if the RX FIFO ever reports full or the stimulus is not a loopback."""
+
+    def __init__(self, bit_cycles, rx_we=False):
+        self.bit, self.rx_we = bit_cycles, rx_we
+        self.q, self.age, self.armed, self.prev_tx, self.done = [], 0, True, 1, 0
+
+    def observe(self, letter, outs):
+        re, r, we, clr, padrx = letter
+        tx, w, txfull, txempty, rxempty, rxfull = outs
+        if padrx != self.prev_tx or rxfull:
+            self.armed = False
+        self.prev_tx = tx
+        if not self.armed:
+            return None
+        msg = None
+        if not rxempty:
+            if not self.q or self.q[0] != w:
+                msg = "received 0x%02x, sent %s" % (w, "0x%02x" % self.q[0] if self.q else "nothing")
+            elif clr or (self.rx_we and we):
+                self.q.pop(0)
+                self.age = 0
+                self.done += 1
+        self.age = self.age + 1 if self.q else 0
+        if msg is None and self.q and self.age > (len(self.q) + 2) * 11 * self.bit + 20:
+            msg = "character 0x%02x not received %d cycles after it was written" % (self.q[0], self.age)
+        if re and not txfull:
+            self.q.append(r & 0xff)
+        return msg
+
+
+class UartSysInst(PInst):
+    """UART(UARTPHY(pads, clk_freq, baudrate), tx_fifo_depth, rx_fifo_depth): built the way SoCs build it.
+       letter  = (rxtx.re, rxtx.r, rxtx.we, clear rx event, pads.rx);  the generator loops pads.tx back to pads.rx
+       outputs = (pads.tx, rxtx.w, txfull, txempty, rxempty, rxfull)"""
+
+    def __init__(self, clk, baud, dtx=16, drx=16, rx_we=False, soc=None):
+        from litex.soc.cores.uart import UART, UARTPHY, UARTPads
+        top = Module()
+        if soc is not None:          # (soc, pads): the PHY and the UART that SoC.add_uart built
+            pads = soc[1]
+            top.submodules.phy = phy = soc[0].uart_phy
+            top.submodules.uart = core = soc[0].uart
+        else:
+            pads = UARTPads()
+            top.submodules.phy = phy = UARTPHY(pads, clk, baud)
+            top.submodules.uart = core = UART(phy, tx_fifo_depth=dtx, rx_fifo_depth=drx, rx_fifo_rx_we=rx_we)
+        self.core, self.pads = core, pads
+        tw = phy_tuning_word(clk, baud)
+        self.bit = -(-int(clk) // int(baud))
+        PInst.__init__(self, ("SoCMini.add_uart(%g Hz,%d baud,fifo_depth=%d)" % (clk, baud, dtx)) if soc is not None else
+                       "UART(UARTPHY(%g Hz,%d baud),tx%d,rx%d%s)" % (clk, baud, dtx, drx, ",rx_we" if rx_we else ""), top,
+                       "uartsys %d %d %d %d" % (tw, dtx, drx, 1 if rx_we else 0), None,
+                       [pads.tx, core._rxtx.w, core._txfull.status, core._txempty.status, core._rxempty.status,
+                        core._rxfull.status], None, None, lambda l, o: l[0] or not o[3] or not o[4],
+                       qual=[None, (lambda a: a[4] == 0), None, None, None, None])
+        self.monitor = lambda: UartSysMonitor(self.bit, rx_we)
+
+    def apply(self, letter):
+        n, c = self.netlist, self.core
+        re, r, we, clr, padrx = letter
+        n.set(c._rxtx.re, re); n.set(c._rxtx.r, r); n.set(c._rxtx.we, we)
+        n.set(c.ev.pending.re, clr); n.set(c.ev.pending.r, 3)
+        n.set(self.pads.rx, padrx)
+        n.settle()
+
+    def sample(self):
+        o = [self.netlist.getu(sig) for sig in self.outputs]
+        self._tx, self._rxempty, self._txfull = o[0], o[4], o[2]
+        return o
+
+    def gen(self, rng, t):
+        if t == 0:
+            self._tx, self._rxempty, self._txfull = 1, 1, 0
+        burst = (t // (40 * self.bit)) % 3
+        pw = (0.002, 0.3, 0.0)[burst] if not self._txfull else 0.05
+        re = 1 if rng.random() < pw else 0
+        clr = 1 if (not self._rxempty and rng.random() < 0.2) else (1 if rng.random() < 0.01 else 0)
+        return (re, rng.getrandbits(8), 1 if rng.random() < 0.05 else 0, clr, self._tx)
 
 
 class RefTransmitter:
@@ -530,11 +861,17 @@ class UartRxInst(PInst):
     reference transmitter whose bit period differs from the receiver's by `ppm_num/ppm_den` (e.g. +-2 %), arbitrary
     gaps (>= 1 bit) and phases; plus an unannounced noisy tail regime for model comparison only."""
 
-    def __init__(self, tw, mismatch=(1, 1), noise=False, name=None):
-        from litex.soc.cores.uart import RS232PHYRX, UARTPads
+    def __init__(self, tw, mismatch=(1, 1), noise=False, name=None, phy=None):
+        from litex.soc.cores.uart import RS232PHYRX, UARTPads, UARTPHY
         pads = UARTPads()
-        core = RS232PHYRX(pads, tw)
+        if phy:                      # through the UARTPHY factory; the reference transmitter runs at exactly `baud`
+            core = UARTPHY(pads, phy[0], phy[1])
+            tw = phy_tuning_word(*phy)
+            name = name or "UARTPHY(%g Hz,%d baud).rx" % phy
+        else:
+            core = RS232PHYRX(pads, tw)
         self.tw = tw
+        self.phy = phy
         self.mismatch = mismatch
         self.noise = noise
         PInst.__init__(self, name or "RS232PHYRX(tw=0x%x%s%s)" % (
@@ -564,6 +901,8 @@ class UartRxInst(PInst):
                 # bit period of the transmitter in cycles, as a fraction: (2^32/tw) * num/den
                 num, den = self.mismatch
                 pn, pd = M32 * num, self.tw * den
+                if self.phy:                            # exactly the requested baud rate (times the mismatch)
+                    pn, pd = int(self.phy[0]) * num, int(self.phy[1]) * den
                 byte = rng.getrandbits(8)
                 off = rng.randrange(0, pd)              # sub-cycle phase of the transmitter
                 tx = RefTransmitter(pn, pd)
@@ -591,10 +930,15 @@ class SpiMasterMonitor:
       - MOSI at rising edge i is bit (width-1-i | length-1-i) of the word given at start (raw | aligned);
       - the received word (low `length` bits, MSB first) equals the MISO values sampled in the cycle before each
         rising edge of the pad clock;
-      - done returns (within (length + 2) * div + 2 cycles) and irq pulses exactly once, in the last cycle."""
+      - done returns (within (length + 2) * div + 2 cycles) and irq pulses exactly once, in the last cycle;
+      - chip selects (`ncs` lines): during a transfer exactly the lines selected in `cs` are low; outside transfers (automatic
+        mode) every line is high; in manual mode (`cs_mode = 1`) cs_n is the registered complement of `cs`."""
 
-    def __init__(self, dw, aligned):
+    def __init__(self, dw, aligned, ncs=1):
         self.dw, self.aligned = dw, aligned
+        self.mask = (1 << ncs) - 1
+        self.idle_run = 0
+        self.prev_ctl = None     # (cs, cs_mode) of the previous cycle
         self.x = None            # current transfer
         self.prev = None         # (clk, cs_n, mosi pad, miso pad) of the previous cycle
         self.check_miso = None
@@ -612,7 +956,24 @@ class SpiMasterMonitor:
         if self.dead:
             return None
         prev = self.prev
-        self.prev = (clk, cs_n, mosi_pad, miso_pad)
+        mask = self.mask
+        cs_vec = cs & mask
+        pc = self.prev_ctl
+        self.prev_ctl = (cs_vec, csm)
+        if pc is not None and pc[1] and cs_n != (mask ^ pc[0]):
+            return "manual CS mode: cs_n=0x%x, cs was 0x%x" % (cs_n, pc[0])
+        if self.x is None:
+            self.idle_run += 1
+            if self.idle_run >= 2 and pc is not None and not pc[1] and cs_n != mask:
+                return "cs_n=0x%x outside a transfer (automatic CS mode)" % cs_n
+        else:
+            self.idle_run = 0
+        # from here on `cs_n` means "the selected lines are not (all and only) asserted"
+        sel = self.x["cs"] if self.x is not None else cs_vec
+        cs_n_raw, cs_n = cs_n, (0 if cs_n == (mask ^ sel) else 1)
+        if prev is not None:
+            prev = (prev[0], 0 if prev[1] == (mask ^ sel) else 1, prev[2], prev[3])
+        self.prev = (clk, cs_n_raw, mosi_pad, miso_pad)
         if self.check_miso is not None:
             exp, n = self.check_miso
             self.check_miso = None
@@ -625,12 +986,12 @@ class SpiMasterMonitor:
             elif irq:
                 msg = "irq outside a transfer"
             if start and msg is None:      # core is idle here (done was 1 unless start, which hides it)
-                ok = (1 <= length <= self.dw) and cs and not csm and div >= 2
+                ok = (1 <= length <= self.dw) and cs_vec != 0 and not csm and div >= 2
                 self.x = {"ok": ok, "len": length, "word": mosi, "div": div, "rises": 0, "falls": 0, "t": 0,
-                          "bits": [], "high": 0, "lb": lb, "last_rise_t": None}
+                          "bits": [], "high": 0, "lb": lb, "last_rise_t": None, "cs": cs_vec}
             return msg
         x["t"] += 1
-        if not x["ok"] or cs != 1 or csm or div != x["div"] or lb != x["lb"] or length != x["len"]:
+        if not x["ok"] or cs_vec != x["cs"] or csm or div != x["div"] or lb != x["lb"] or length != x["len"]:
             x["ok"] = False          # registers changed during the transfer: outside the armed domain
         if x["ok"]:
             rising = prev is not None and clk and not prev[0]
@@ -679,9 +1040,9 @@ class SpiMasterMonitor:
                         msg = "received word 0x%x (low %d bits), MISO carried 0x%x" % (miso & ((1 << x["len"]) - 1), x["len"], exp)
             self.x = None
             if start and msg is None:
-                ok = (1 <= length <= self.dw) and cs and not csm and div >= 2
+                ok = (1 <= length <= self.dw) and cs_vec != 0 and not csm and div >= 2
                 self.x = {"ok": ok, "len": length, "word": mosi, "div": div, "rises": 0, "falls": 0, "t": 0,
-                          "bits": [], "high": 0, "lb": lb, "last_rise_t": None}
+                          "bits": [], "high": 0, "lb": lb, "last_rise_t": None, "cs": cs_vec}
             return msg
         if irq:
             if x.get("irq_seen") and x["ok"] and msg is None:
@@ -692,23 +1053,52 @@ class SpiMasterMonitor:
 
 class SpiMasterInst(PInst):
     """letter = (start, length, mosi, cs, cs_mode, loopback, clk_divider, pads.miso)
-       outputs = (pads.clk, pads.cs_n, pads.mosi, done, irq, miso)"""
+       outputs = (pads.clk, pads.cs_n, pads.mosi, done, irq, miso)
+    Options: `ncs` chip selects (cs / cs_n are vectors); `csr=True` builds the core with its CSR glue (`add_csr`, and
+    `add_clk_divider` unless `default_div`) and drives / observes the CSR-side signals (`_control.fields.*`, `_mosi.storage`,
+    `_cs.fields.*`, `_loopback.fields.mode`, `_clk_divider.storage`; `_status.fields.done`, `_miso.status`);
+    `default_div=(sys_clk_freq, spi_clk_freq)` leaves the divider at the value the constructor computes - the letters
+    then carry ceil(sys/spi), computed here from the constructor arguments."""
 
-    def __init__(self, dw, aligned, alphabet=None, divs=(2, 3, 4, 5), tag=""):
+    def __init__(self, dw, aligned, alphabet=None, divs=(2, 3, 4, 5), tag="", ncs=1, csr=False, default_div=None):
+        import math
         from litex.soc.cores.spi.spi_master import SPIMaster
-        pads = Record(SPIMaster.pads_layout)
-        core = SPIMaster(pads, dw, 1e6, 1e6 / 4, with_csr=False, mode="aligned" if aligned else "raw")
-        self.dw, self.aligned, self.divs = dw, aligned, list(divs)
-        PInst.__init__(self, "SPIMaster(%d,%s)%s" % (dw, "aligned" if aligned else "raw", tag), core,
-                       "spimaster %d %d" % (dw, 1 if aligned else 0),
-                       [core.start, core.length, core.mosi, core.cs, core.cs_mode, core.loopback, core.clk_divider,
-                        pads.miso],
-                       [pads.clk, pads.cs_n, pads.mosi, core.done, core.irq, core.miso], alphabet, None,
-                       lambda l, o: l[0] or not o[3] or o[0])
+        pads = Record([("clk", 1), ("cs_n", ncs), ("mosi", 1), ("miso", 1)])
+        sysf, spif = default_div if default_div else (1e6, 1e6 / 4)
+        core = SPIMaster(pads, dw, sysf, spif, with_csr=csr, mode="aligned" if aligned else "raw")
+        self.dw, self.aligned, self.ncs = dw, aligned, ncs
+        self.divs = [math.ceil(sysf / spif)] if default_div else list(divs)
+        self._skip_div = bool(default_div)
+        if csr:
+            if not default_div:
+                core.add_clk_divider()
+            f = core._control.fields
+            ins = [f.start, f.length, core._mosi.storage, core._cs.fields.sel, core._cs.fields.mode,
+                   core._loopback.fields.mode, core.clk_divider if default_div else core._clk_divider.storage, pads.miso]
+            outs = [pads.clk, pads.cs_n, pads.mosi, core._status.fields.done, core.irq, core._miso.status]
+        else:
+            ins = [core.start, core.length, core.mosi, core.cs, core.cs_mode, core.loopback, core.clk_divider, pads.miso]
+            outs = [pads.clk, pads.cs_n, pads.mosi, core.done, core.irq, core.miso]
+        PInst.__init__(self, "SPIMaster(%d,%s%s%s%s)%s" % (
+            dw, "aligned" if aligned else "raw", ",ncs=%d" % ncs if ncs != 1 else "", ",with_csr" if csr else "",
+            ",default divider %g/%g" % (sysf, spif) if default_div else "", tag), core,
+            "spimastern %d %d %d" % (dw, 1 if aligned else 0, ncs), ins, outs, alphabet, None,
+            lambda l, o: l[0] or not o[3] or o[0])
         self._st = None
+        self._ins, self._outs = ins, outs         # custom apply: a default divider is left at its reset value
+
+    def apply(self, letter):
+        n = self.netlist
+        for k, (sig, v) in enumerate(zip(self._ins, letter)):
+            if k != 6 or not self._skip_div:
+                n.set(sig, v)
+        n.settle()
+
+    def sample(self):
+        return [self.netlist.getu(sig) for sig in self._outs]
 
     def monitor(self):
-        return SpiMasterMonitor(self.dw, self.aligned)
+        return SpiMasterMonitor(self.dw, self.aligned, self.ncs)
 
     def idle_letter(self, last):
         return (0,) + tuple(last[1:])
@@ -727,7 +1117,9 @@ class SpiMasterInst(PInst):
         if not st["sticky"] and (start or rng.random() < 0.01):
             st["len"] = rng.randint(1, self.dw) if rng.random() < 0.97 else rng.choice([0, self.dw + 1, 255])
             st["word"] = rng.getrandbits(self.dw)
-        cs = 1 if rng.random() < 0.998 else 0
+        if "cs" not in st:
+            st["cs"] = rng.randrange(1, 1 << self.ncs)
+        cs = st["cs"] if rng.random() < 0.998 else rng.randrange(0, 1 << self.ncs)
         csm = 1 if rng.random() < 0.002 else 0
         return (start, st["len"], st["word"], cs, csm, st["lb"], st["div"], rng.randint(0, 1))
 
@@ -741,7 +1133,9 @@ class SpiSlaveMonitor:
     cs_n falls and for 3 cycles before cs_n rises, every clock level inside lasts at least 3 cycles, MOSI does not change
     within one cycle of a rising clock edge.  Then, after cs_n is released, the core pulses irq once within 6 cycles and
     reports length = number of rising clock edges inside the frame and (in the low min(length, width) bits) the
-    received word = MOSI at those edges, MSB first."""
+    received word = MOSI at those edges, MSB first.  MISO (no loopback, the word to send constant from the cs_n edge on, at
+    least 3 cycles between the cs_n edge and the first clock edge): at rising clock edge k the pad carries bit width-1-k of
+    the word to send (0 beyond the width)."""
 
     def __init__(self, dw):
         self.dw = dw
@@ -761,8 +1155,11 @@ class SpiSlaveMonitor:
         if t >= 1:
             pc, pn, pm = h[-2]
             if pn and not cs_n:
-                self.frame = fr = {"bits": [], "clean": self.high_run >= 4 and not clk and not pc, "lvl": 1, "t0": t}
+                self.frame = fr = {"bits": [], "clean": self.high_run >= 4 and not clk and not pc, "lvl": 1, "t0": t,
+                                   "tx": tx, "tx_ok": not lb}
             elif fr is not None and not cs_n:
+                if lb or (t - fr["t0"] <= 3 and tx != fr["tx"]):
+                    fr["tx_ok"] = False
                 if clk != pc:
                     if fr["lvl"] < 3 and t - fr["t0"] > fr["lvl"]:
                         fr["clean"] = False
@@ -770,6 +1167,12 @@ class SpiSlaveMonitor:
                         fr["clean"] = False
                     fr["lvl"] = 1
                     if clk:
+                        k = len(fr["bits"])
+                        if fr["clean"] and fr["tx_ok"] and (k > 0 or t - fr["t0"] >= 3):
+                            exp = (fr["tx"] >> (self.dw - 1 - k)) & 1 if k < self.dw else 0
+                            if miso != exp:
+                                msg = "MISO at rising edge %d is %d, expected bit %d of 0x%x = %d" % (
+                                    k, miso, self.dw - 1 - k, fr["tx"], exp)
                         fr["bits"].append(mosi)
                         if pm != mosi:
                             fr["clean"] = False
@@ -852,48 +1255,73 @@ I2C_STATES = ["IDLE", "START0", "RESTART0", "RESTART1", "STOP0", "STOP1", "STOP2
               "READACK1", "READ0", "READ1", "READ2", "WRITEACK0", "WRITEACK1"]
 
 
-class I2cReadDecoder:
-    """Pin-level decoder of the eight data bits of an I2C READ (independent of the model).  `step` is fed, per cycle, the
-    SCL level, whether the master is seen driving SDA low, and the SDA line value the master samples.  Rules:
-      - during the SCL-high phase of each data bit the master's SDA driver is released (the slave owns the line);
-      - the byte returned is, MSB first, the line value of each data bit (judged only when the line was constant during
-        the whole SCL-high phase of every bit and nothing disturbed the transfer)."""
+class I2cByteDecoder:
+    """Pin-level decoder of one I2C byte transfer, nine SCL pulses (independent of the model).  `step` is fed, per cycle,
+    the SCL level, whether the master is seen driving SDA low (None = not observable), and the SDA line value.
+      READ : during the SCL-high phase of the eight data bits the master's driver is released (the slave owns the line);
+             the byte returned is, MSB first, the line value of each data bit; during the ninth pulse the master drives
+             low iff it was told to acknowledge;
+      WRITE: during the SCL-high phase of data bit k the master drives low iff bit 7-k of the byte is 0; during the ninth
+             pulse it releases SDA, and the acknowledge it reports is the complement of the line value there.
+    Values are judged only when the line was constant during the whole SCL-high phase and nothing disturbed the
+    transfer (register pokes / bus writes in between)."""
 
     def __init__(self):
         self.active = False
 
-    def start(self):
-        self.active, self.clean, self.bits, self.high, self.pscl = True, True, [], [], 0
+    def start(self, kind="read", byte=0, ack=0, scl=0):
+        self.active, self.clean, self.bits, self.high, self.pscl = True, True, [], [], scl
+        self.kind, self.byte, self.ack, self.wait_low = kind, byte, ack, bool(scl)
 
     def abort(self):
         self.active = False
 
     def step(self, scl, drives_low, line, disturbed):
-        """-> (msg, byte or None when the eighth bit just completed cleanly)"""
+        """-> (msg, event): event = ("data", byte) when the eighth bit of a READ completed cleanly,
+                                    ("ack", line value) when the ninth pulse of a WRITE completed cleanly"""
         if not self.active:
             return None, None
-        msg, done = None, None
+        msg, ev = None, None
         if disturbed:
             self.clean = False
+        if self.wait_low:                                # WRITE accepted with SCL still high (after START)
+            if not scl:
+                self.wait_low = False
+            self.pscl = scl
+            return None, None
+        k = len(self.bits)
         if scl:
-            if drives_low:
-                msg = "master drives SDA low during data bit %d of a READ" % len(self.bits)
+            if drives_low is not None and self.clean:
+                if self.kind == "read":
+                    want = bool(self.ack) if k == 8 else False
+                    what = "the ACK bit (ack=%d)" % self.ack if k == 8 else "data bit %d" % k
+                else:
+                    want = False if k == 8 else not ((self.byte >> (7 - k)) & 1)
+                    what = "the ACK bit" if k == 8 else "data bit %d (byte 0x%02x)" % (k, self.byte)
+                if bool(drives_low) != want:
+                    msg = "master %s SDA low during %s of a %s" % ("drives" if drives_low else "does not drive", what,
+                                                                  self.kind.upper())
             self.high.append(line)
         elif self.pscl:                                  # falling edge: the bit is over
-            if len(set(self.high)) != 1:
+            const = len(set(self.high)) == 1
+            if not const:
                 self.clean = False
-                self.bits.append(0)
-            else:
-                self.bits.append(self.high[0])
+            self.bits.append(self.high[0] if self.high else 0)
             self.high = []
-            if len(self.bits) == 8:
+            if len(self.bits) == 8 and self.kind == "read" and self.clean:
+                v = 0
+                for b in self.bits:
+                    v = (v << 1) | b
+                ev = ("data", v)
+            if len(self.bits) == 9:
                 self.active = False
-                if self.clean:
-                    done = 0
-                    for b in self.bits:
-                        done = (done << 1) | b
+                if self.kind == "write" and self.clean:
+                    ev = ("ack", self.bits[8])
         self.pscl = scl
-        return msg, done
+        return msg, ev
+
+
+I2cReadDecoder = I2cByteDecoder
 
 
 class I2cMonitor:
@@ -937,13 +1365,18 @@ class I2cMonitor:
         self.prev = (scl, sda)
         # READ decoding: the strobe is accepted when the machine showed idle in the previous cycle
         if self.rd.active:
-            m2, byte = self.rd.step(scl, sda == 0, sda_i, bool(poke))
+            m2, ev = self.rd.step(scl, sda == 0, sda_i, bool(poke))
             if msg is None and m2:
                 msg = m2
-            if msg is None and byte is not None and not poke and data != byte:
-                msg = "READ returned 0x%02x, SDA carried 0x%02x" % (data, byte)
-        if self.prev_idle and rd and not wr and not st and not scl:
-            self.rd.start()
+            if msg is None and ev is not None and not poke:
+                if ev[0] == "data" and data != ev[1]:
+                    msg = "READ returned 0x%02x, SDA carried 0x%02x" % (data, ev[1])
+                elif ev[0] == "ack" and ack != 1 - ev[1]:
+                    msg = "WRITE reports ack=%d, SDA was %d during the acknowledge clock" % (ack, ev[1])
+        if self.prev_idle and wr and not st:
+            self.rd.start("write", byte=data, scl=scl)
+        elif self.prev_idle and rd and not st and not scl:
+            self.rd.start("read", ack=ack)
         elif self.prev_idle and run:
             self.rd.abort()
         self.prev_idle = idle
@@ -1074,8 +1507,8 @@ class I2cPadMonitor:
     rising, SCL high) that software requested (start/stop bit written to the transfer register and not yet seen on
     the bus; clock stretching may defer it past the return to idle).  Only transitions caused by the master are judged: cycles in which the external drive of the harness changed
     are skipped.  Liveness: idle returns within 21 clk2x periods after the last command write.
-    READ (written while idle, SCL low, no clock stretching during it): the master's SDA driver is released during the
-    eight data bits and bus.dat_r then returns the SDA values of those bits, MSB first (`I2cReadDecoder`)."""
+    READ / WRITE (written while idle, divider >= 1, no clock stretching during it): decoded by `I2cByteDecoder` - data
+    bits MSB first in both directions, driver released in the slots the slave owns, acknowledge driven / reported."""
 
     def __init__(self):
         self.rd = I2cReadDecoder()
@@ -1104,21 +1537,27 @@ class I2cPadMonitor:
         self.prev = (scl, sda, escl, esda)
         wr_x = bool(cyc and stb and we and not back and not adr0)
         if self.expect is not None:
-            if msg is None and not self.prev_adr0 and (datr & 0xff) != self.expect:
-                msg = "READ returned 0x%02x, SDA carried 0x%02x" % (datr & 0xff, self.expect)
+            kind, val = self.expect
+            if msg is None and not self.prev_adr0:
+                if kind == "data" and (datr & 0xff) != val:
+                    msg = "READ returned 0x%02x, SDA carried 0x%02x" % (datr & 0xff, val)
+                elif kind == "ack" and ((datr >> 8) & 1) != 1 - val:
+                    msg = "WRITE reports ack=%d, SDA was %d during the acknowledge clock" % ((datr >> 8) & 1, val)
             self.expect = None
         if self.rd.active:
             if not escl:
                 self.rd.abort()                       # clock stretching: not judged
             else:
-                m2, byte = self.rd.step(scl, sda == 0 and esda == 1, sda, wr_x)
+                m2, ev = self.rd.step(scl, (sda == 0) if esda == 1 else None, sda, wr_x)
                 if msg is None and m2:
                     msg = m2
-                if byte is not None and not wr_x:
-                    self.expect = byte
+                if ev is not None and not wr_x:
+                    self.expect = ev
         if wr_x and idle:
-            if (dat & I2C_R) and not (dat & (I2C_W | I2C_S)) and not scl and escl:
-                self.rd.start()
+            if (dat & I2C_W) and not (dat & I2C_S) and escl and self.load >= 1:
+                self.rd.start("write", byte=dat & 0xff, scl=scl)
+            elif (dat & I2C_R) and not (dat & (I2C_W | I2C_S)) and not scl and escl and self.load >= 1:
+                self.rd.start("read", ack=(dat >> 8) & 1)
             elif dat & (I2C_S | I2C_P | I2C_W | I2C_R):
                 self.rd.abort()
         self.prev_adr0 = adr0
@@ -1243,3 +1682,19 @@ class I2cMasterInst(PInst):
         if rng.random() < 0.1:                   # a polling read
             return (1, 1, 0, rng.randint(0, 1), 0, escl, esda)
         return (0, 0, 0, 0, 0, escl, esda)
+
+
+def mk_soc_uart(clk=2e6, baud=250000, depth=4):
+    soc, pads, _ = soc_parts(clk, baud, depth)
+    return UartSysInst(clk, baud, depth, depth, soc=(soc, pads))
+
+
+def mk_soc_timer():
+    soc, _, _ = soc_parts()
+    return mk_timer(32, core=soc.timer0, name="SoCMini.add_timer()")          # Timer() default width
+
+
+def mk_soc_watchdog(width=12, delay=5):
+    soc, _, rst = soc_parts(wd_width=width, wd_delay=delay)
+    return mk_watchdog(width, delay, with_halted=False, core=soc.watchdog0, crg=rst,
+                       name="SoCMini.add_watchdog(width=%d,reset_delay=%d)" % (width, delay))
